@@ -251,6 +251,7 @@ def build():
     add_nested("String", [2, 2], [st("a, b"), st("c]"), st("[d"), st("],[")], note="separators inside strings")
     add_nested("String", [2], [st("x], [y"), st("z")], scope="out", note="the four characters `], [` inside a string: array_parse_input! rewrites them before the strings are cut out")
     add_nested("String", [2], [st("\u00e9,\u00fc"), st("\u00df]")], note="non-ASCII text with separators")
+    add_nested("String", [2], [st(", "), st("a")], scope="out", note="a string that is exactly comma-blank: with its quotes it is the pattern array_parse_input! rewrites")
     add_nested("String", [1, 3], [st(""), st(" "), st("_")], note="empty / blank / placeholder strings")
     add_nested("String", [3, 1], [st("#"), st("(x)"), st("]#[")], note="hash separator inside strings")
     add_nested("String", [2], [st("a\nb"), st("t\tu")], note="Debug escapes \\n \\t")
